@@ -32,6 +32,9 @@ func randDevPlan(r *Rng, need int, uniformOnly bool) *DevPlan {
 			if r.Chance(1, 3) {
 				f.Stall = r.Range(1, 3)
 			}
+			if r.Chance(1, 8) {
+				f.Delay = []int{1, 50, 999, 1999, 2001, 5000, 30001, 60000}[r.Intn(8)]
+			}
 			p.Reads = append(p.Reads, f)
 		}
 	case 3:
